@@ -144,7 +144,7 @@ impl Check for C15 {
         Some((0 .. 16).map(|i| (i * 45, 45)).collect())
     }
     fn rule(&self) -> String {
-        "values of the 15 response types built in this configuration (and their player types) generated directly through their public fields from the models' random states (boundary numerics, string classes, empty lists, optional members); an accessor table written from the field documentation (DESIGN.md Appendix B.1) gives the expected name/description/game_mode/game_version/map/players_maximum/players_online/players_bots/has_password/players(name, score); accessors, as_json() field by field, its serde_json rendering re-parsed, players' as_json, and as_original() (same variant, equal to and pointing at the original) are compared. non-trivial = all comparisons done; distinct by value".into()
+        "values of the 15 response types built in this configuration (and their player types) generated directly through their public fields from the models' random states (boundary numerics, string classes, empty lists, optional members; in half the cases the count fields are set independently of the lists); an accessor table written from the field documentation (DESIGN.md Appendix B.1) gives the expected name/description/game_mode/game_version/map/players_maximum/players_online/players_bots/has_password/players(name, score); accessors, as_json() field by field, its serde_json rendering re-parsed, players' as_json, and as_original() (same variant, equal to and pointing at the original) are compared. non-trivial = all comparisons done; distinct by value".into()
     }
     fn assumptions(&self) -> Vec<String> { vec!["theship::Response has a game_version field that the view does not expose: recorded observe-only".into(), "Minetest and Epic response types need the tls feature and are not built".into()] }
     fn total_cases(&self, tier: Tier) -> u64 { tier.pick(150_000, 6_000_000) }
@@ -157,7 +157,11 @@ impl Check for C15 {
             "valve" => {
                 let engine = *rng.pick(&[Engine::new(440), Engine::GoldSrc(true), Engine::new(2400)]);
                 let st = VState::gen(rng, &engine, 440, np, nx);
-                let r = st.expected(rng.bool(), rng.bool());
+                let mut r = st.expected(rng.bool(), rng.bool());
+                if rng.bool() {
+                    // the counts the server announces are independent of the lists it sends
+                    (r.info.players_online, r.info.players_maximum, r.info.players_bots) = (rng.b_u8(), rng.b_u8(), rng.b_u8());
+                }
                 let exp = View {
                     name: some(&r.info.name), game_mode: some(&r.info.game_mode), game_version: some(&r.info.game_version), map: some(&r.info.map),
                     players_maximum: r.info.players_maximum as u32, players_online: r.info.players_online as u32, players_bots: Some(r.info.players_bots as u32), has_password: Some(r.info.has_password),
@@ -168,42 +172,60 @@ impl Check for C15 {
                 judge(cx, "valve::Response", &r, exp, orig, porig, hash64(&st.info_message()) ^ np as u64);
             }
             "gamespy1" => {
-                let r = Gs1State::gen(rng, np, nx).expected();
+                let mut r = Gs1State::gen(rng, np, nx).expected();
+                if rng.bool() {
+                    (r.players_online, r.players_maximum) = (rng.b_u32(), rng.b_u32());
+                }
                 let exp = View { name: some(&r.name), map: some(&r.map), has_password: Some(r.has_password), game_mode: some(&r.game_mode), game_version: some(&r.game_version), players_maximum: r.players_maximum, players_online: r.players_online, players: Some(r.players.iter().map(|p| (p.name.clone(), Some(p.score))).collect()), ..Default::default() };
                 let orig = matches!(r.as_original(), GenericResponse::GameSpy(gamespy::VersionedResponse::One(x)) if std::ptr::eq(x, &r));
                 let porig = Some(r.players.iter().all(|p| matches!(p.as_original(), GenericPlayer::Gamespy(gamespy::VersionedPlayer::One(x)) if std::ptr::eq(x, p))));
                 judge(cx, "gamespy::one::Response", &r, exp, orig, porig, hash64(format!("{r:?}").as_bytes()));
             }
             "gamespy2" => {
-                let r = Gs2State::gen(rng, np, nx, 1).expected();
+                let mut r = Gs2State::gen(rng, np, nx, 1).expected();
+                if rng.bool() {
+                    (r.players_online, r.players_maximum) = (rng.b_u32(), rng.b_u32());
+                }
                 let exp = View { name: some(&r.name), map: some(&r.map), has_password: Some(r.has_password), players_maximum: r.players_maximum, players_online: r.players_online, players: Some(r.players.iter().map(|p| (p.name.clone(), Some(p.score as i32))).collect()), ..Default::default() };
                 let orig = matches!(r.as_original(), GenericResponse::GameSpy(gamespy::VersionedResponse::Two(x)) if std::ptr::eq(x, &r));
                 let porig = Some(r.players.iter().all(|p| matches!(p.as_original(), GenericPlayer::Gamespy(gamespy::VersionedPlayer::Two(x)) if std::ptr::eq(x, p))));
                 judge(cx, "gamespy::two::Response", &r, exp, orig, porig, hash64(format!("{r:?}").as_bytes()));
             }
             "gamespy3" => {
-                let r = Gs3State::gen(rng, np, nx, 1).expected();
+                let mut r = Gs3State::gen(rng, np, nx, 1).expected();
+                if rng.bool() {
+                    (r.players_online, r.players_maximum) = (rng.b_u32(), rng.b_u32());
+                }
                 let exp = View { name: some(&r.name), map: some(&r.map), has_password: Some(r.has_password), game_mode: some(&r.game_mode), game_version: some(&r.game_version), players_maximum: r.players_maximum, players_online: r.players_online, players: Some(r.players.iter().map(|p| (p.name.clone(), Some(p.score))).collect()), ..Default::default() };
                 let orig = matches!(r.as_original(), GenericResponse::GameSpy(gamespy::VersionedResponse::Three(x)) if std::ptr::eq(x, &r));
                 let porig = Some(r.players.iter().all(|p| matches!(p.as_original(), GenericPlayer::Gamespy(gamespy::VersionedPlayer::Three(x)) if std::ptr::eq(x, p))));
                 judge(cx, "gamespy::three::Response", &r, exp, orig, porig, hash64(format!("{r:?}").as_bytes()));
             }
             "quake1" => {
-                let r = QState::gen(rng, Ver::One, np, nx).expected_one();
+                let mut r = QState::gen(rng, Ver::One, np, nx).expected_one();
+                if rng.bool() {
+                    (r.players_online, r.players_maximum) = (rng.b_u8(), rng.b_u8());
+                }
                 let exp = View { name: some(&r.name), map: some(&r.map), game_version: r.game_version.clone(), players_maximum: r.players_maximum as u32, players_online: r.players_online as u32, players: Some(r.players.iter().map(|p| (p.name.clone(), Some(p.score as i32))).collect()), ..Default::default() };
                 let orig = matches!(r.as_original(), GenericResponse::Quake(quake::VersionedResponse::One(x)) if std::ptr::eq(x, &r));
                 let porig = Some(r.players.iter().all(|p| matches!(p.as_original(), GenericPlayer::QuakeOne(x) if std::ptr::eq(x, p))));
                 judge(cx, "quake::Response<one::Player>", &r, exp, orig, porig, hash64(format!("{r:?}").as_bytes()));
             }
             "quake2" => {
-                let r = QState::gen(rng, Ver::Two, np, nx).expected_two();
+                let mut r = QState::gen(rng, Ver::Two, np, nx).expected_two();
+                if rng.bool() {
+                    (r.players_online, r.players_maximum) = (rng.b_u8(), rng.b_u8());
+                }
                 let exp = View { name: some(&r.name), map: some(&r.map), game_version: r.game_version.clone(), players_maximum: r.players_maximum as u32, players_online: r.players_online as u32, players: Some(r.players.iter().map(|p| (p.name.clone(), Some(p.score))).collect()), ..Default::default() };
                 let orig = matches!(r.as_original(), GenericResponse::Quake(quake::VersionedResponse::TwoAndThree(x)) if std::ptr::eq(x, &r));
                 let porig = Some(r.players.iter().all(|p| matches!(p.as_original(), GenericPlayer::QuakeTwo(x) if std::ptr::eq(x, p))));
                 judge(cx, "quake::Response<two::Player>", &r, exp, orig, porig, hash64(format!("{r:?}").as_bytes()));
             }
             "unreal2" => {
-                let r = UState::gen(rng, np, nx).expected(true, true);
+                let mut r = UState::gen(rng, np, nx).expected(true, true);
+                if rng.bool() {
+                    (r.server_info.num_players, r.server_info.max_players) = (rng.b_u32(), rng.b_u32());
+                }
                 let exp = View { name: some(&r.server_info.name), game_mode: some(&r.server_info.game_type), map: some(&r.server_info.map), players_maximum: r.server_info.max_players, players_online: r.server_info.num_players, has_password: Some(r.server_info.password), players: Some(r.players.players.iter().map(|p| (p.name.clone(), Some(p.score))).collect()), ..Default::default() };
                 let orig = matches!(r.as_original(), GenericResponse::Unreal2(x) if std::ptr::eq(x, &r));
                 let porig = Some(r.players.players.iter().all(|p| matches!(p.as_original(), GenericPlayer::Unreal2(x) if std::ptr::eq(x, p))));
@@ -212,6 +234,9 @@ impl Check for C15 {
             "java" => {
                 let (mut r, d) = JavaState::gen(rng).expected();
                 r.description = d.to_string();
+                if rng.bool() {
+                    (r.players_online, r.players_maximum) = (rng.b_u32(), rng.b_u32());
+                }
                 let exp = View { description: some(&r.description), game_version: some(&r.game_version), players_maximum: r.players_maximum, players_online: r.players_online, players: r.players.as_ref().map(|p| p.iter().map(|x| (x.name.clone(), None)).collect()), ..Default::default() };
                 let orig = matches!(r.as_original(), GenericResponse::Minecraft(gamedig::games::minecraft::VersionedResponse::Java(x)) if std::ptr::eq(x, &r));
                 let porig = r.players.as_ref().map(|ps| ps.iter().all(|p| matches!(p.as_original(), GenericPlayer::Minecraft(x) if std::ptr::eq(x, p))));
@@ -232,10 +257,13 @@ impl Check for C15 {
             "theship" => {
                 let st = VState::gen(rng, &Engine::new(2400), 2400, np, nx);
                 let v = st.expected(true, true);
-                let r = match theship::Response::new_from_valve_response(v) {
+                let mut r = match theship::Response::new_from_valve_response(v) {
                     Ok(r) => r,
                     Err(_) => return,
                 };
+                if rng.bool() {
+                    (r.players_online, r.players_maximum, r.players_bots) = (rng.b_u8(), rng.b_u8(), rng.b_u8());
+                }
                 let exp = View { name: some(&r.name), map: some(&r.map), game_mode: some(&r.game_mode), players_maximum: r.players_maximum as u32, players_online: r.players_online as u32, players_bots: Some(r.players_bots as u32), has_password: Some(r.has_password), players: Some(r.players.iter().map(|p| (p.name.clone(), Some(p.score))).collect()), open: vec!["game_version"], ..Default::default() };
                 let orig = matches!(r.as_original(), GenericResponse::TheShip(x) if std::ptr::eq(x, &r));
                 let porig = Some(r.players.iter().all(|p| matches!(p.as_original(), GenericPlayer::TheShip(x) if std::ptr::eq(x, p))));
@@ -248,7 +276,10 @@ impl Check for C15 {
                 judge(cx, "ffow::Response", &r, exp, orig, None, hash64(format!("{r:?}").as_bytes()));
             }
             "jc2m" => {
-                let r = Jc2mState::gen(rng, np).expected();
+                let mut r = Jc2mState::gen(rng, np).expected();
+                if rng.bool() {
+                    (r.players_online, r.players_maximum) = (rng.b_u32(), rng.b_u32());
+                }
                 let exp = View { name: some(&r.name), description: some(&r.description), game_version: some(&r.game_version), players_maximum: r.players_maximum, players_online: r.players_online, has_password: Some(r.has_password), players: Some(r.players.iter().map(|p| (p.name.clone(), None)).collect()), ..Default::default() };
                 let orig = matches!(r.as_original(), GenericResponse::JC2M(x) if std::ptr::eq(x, &r));
                 let porig = Some(r.players.iter().all(|p| matches!(p.as_original(), GenericPlayer::JCMP2(x) if std::ptr::eq(x, p))));
@@ -269,7 +300,10 @@ impl Check for C15 {
                 judge(cx, "mindustry::ServerData", &r, exp, orig, None, hash64(format!("{r:?}").as_bytes()));
             }
             _ => {
-                let r = EcoState::gen(rng).r;
+                let mut r = EcoState::gen(rng).r;
+                if rng.bool() {
+                    (r.players_online, r.players_maximum) = (rng.b_u32(), rng.b_u32());
+                }
                 let exp = View { description: some(&r.description), game_version: some(&r.game_version), players_maximum: r.players_maximum, players_online: r.players_online, has_password: Some(r.has_password), players: Some(r.players.iter().map(|p| (p.name.clone(), None)).collect()), ..Default::default() };
                 let orig = matches!(r.as_original(), GenericResponse::Eco(x) if std::ptr::eq(x, &r));
                 let porig = Some(r.players.iter().all(|p| matches!(p.as_original(), GenericPlayer::Eco(x) if std::ptr::eq(x, p))));
